@@ -178,13 +178,30 @@ func (s *Server) Close() error {
 }
 
 func (s *Server) readListener(l net.Listener, am *allocation.Manager) {
+	var retryDelay time.Duration
+
 	for {
 		conn, err := l.Accept()
 		if err != nil {
+			// Out of file descriptors and the like: that passes, the listener
+			// must not be lost over it. Back off and try again, as net/http does.
+			var netErr net.Error
+			if errors.As(err, &netErr) && netErr.Temporary() { //nolint:staticcheck
+				if retryDelay == 0 {
+					retryDelay = 5 * time.Millisecond
+				} else if retryDelay *= 2; retryDelay > time.Second {
+					retryDelay = time.Second
+				}
+				s.log.Warnf("Failed to accept: %s; retrying in %s", err, retryDelay)
+				time.Sleep(retryDelay)
+
+				continue
+			}
 			s.log.Debugf("Failed to accept: %s", err)
 
 			return
 		}
+		retryDelay = 0
 
 		s.connsLock.Lock()
 		if s.closed {
